@@ -97,6 +97,17 @@ type Task struct {
 	SiteSeen     [MaxSites / 64]uint64 // bitmap: site executed with >= 2 keys
 }
 
+// ResetSchedule restarts the per-site execution counters, so that the
+// map-order schedule of a query depends on (policy, key) only and not on what
+// the task ran before.
+//
+//go:norace
+func (t *Task) ResetSchedule() {
+	for i := range t.siteExec {
+		t.siteExec[i] = 0
+	}
+}
+
 // BudgetExceeded is the panic value raised by Tick when a task runs out of
 // budget (reported as non-termination by the C01 oracle).
 type BudgetExceeded struct{ Ticks int64 }
